@@ -333,11 +333,31 @@ def check_wire_survivor(ctx, rdclass, rdtype, tname, data):
 NUMS = ["0", "1", "255", "256", "65535", "65536", "4294967295", "4294967296", "99999999999999999999", "-1", "1.5", "1e3", "0x10", "010", "+5", "٣", "²"]
 
 
+_BIG = {}
+
+
+def big_blob(kind, n):
+    """valid base64 / hex text of n octets (cached)"""
+    if (kind, n) not in _BIG:
+        import base64
+
+        raw = bytes((i * 7 + 3) & 0xFF for i in range(n))
+        _BIG[(kind, n)] = base64.b64encode(raw).decode() if kind == "b64" else raw.hex()
+    return _BIG[(kind, n)]
+
+
 def mutate_text(rng, t):
     toks = t.split(" ")
-    k = rng.choice(("num", "num", "case", "dup", "drop", "quote", "esc", "swap", "append"))
+    k = rng.choice(("num", "num", "case", "dup", "drop", "quote", "esc", "swap", "append") + (("blowup",) if rng.random() < 0.25 else ()))
     i = rng.randrange(len(toks))
-    if k == "num":
+    if k == "blowup":
+        # a key / MAC / digest field far larger than its length prefix can express (256, 65536 and 70000 octets): the reader
+        # refuses it, or what it accepted can be encoded
+        cands = [j for j, x in enumerate(toks) if len(x) >= 4 and x.replace("=", "").replace("+", "").replace("/", "").isalnum()]
+        j = rng.choice(cands) if cands else i
+        ishex = all(c in "0123456789abcdefABCDEF" for c in toks[j]) and len(toks[j]) % 2 == 0
+        toks[j] = big_blob("hex" if ishex and rng.random() < 0.7 else "b64", rng.choice((256, 65536, 70000)))
+    elif k == "num":
         toks[i] = rng.choice(NUMS)
     elif k == "case":
         toks[i] = toks[i].swapcase()
